@@ -13,14 +13,14 @@
     [spec_ok]: the property's clauses evaluated on the implementation's observation
     alone: hold intervals of live holders are disjoint; after a holder is killed a
     persistent waiter acquires within the bound; a cancelled blocked Lock returns promptly. *)
-From CM Require Import Lib.Str Lib.Wire Gen.Consts FileLock.Model.
+From CM Require Import Lib.Str Lib.Wire Lib.SafeSteps Gen.Consts Safe.Model FileLock.Model.
 Open Scope Z_scope.
 
 (** H-live latency bound used when simulating: any value below (factor-1)*interval *)
 Definition sim_delta : Z := 2000000000.
 Definition cfg_repo_eps (d e : Z) : config :=
   Config lock_freshness_interval file_lock_poll_interval lock_stale_factor (Z.to_nat lock_empty_retries)
-         lock_empty_sleep lock_empty_count_resets lock_hb_checks_created d e.
+         lock_empty_sleep lock_empty_count_resets (lock_hb_checks_created && lock_hb_check_before_truncate) d e.
 Definition cfg_repo (d : Z) : config := cfg_repo_eps d 0.
 
 Record ev := Ev { etime : Z; ekind : Z; ea : Z; eb : Z }.   (* kind: 0 start(tid, pid) 1 unlock(tid) 2 kill(pid) 3 cancel(tid) *)
@@ -146,18 +146,68 @@ Definition cancel_ok (c : case) : bool :=
 
 Definition spec_ok (c : case) : bool := mutex_ok c && recovers_ok c && cancel_ok c.
 
+(** ** "distinct names never block each other": cases of kind 1
+
+    A names case lists the threads of one scenario (no pre-made lock file) with the name each
+    passed to Lock, the lock file the implementation uses for that name (lockFilename on
+    the root "/r"), and when and how its Lock returned.
+    [names_model_agrees]: the model's lock file for the name ([Safe.Model.lock_filename]: Safe
+    from the statement sequence translated from storage.go) is the implementation's, for
+    every thread - so the grouping of threads into lock files, which the scenario cases
+    (kind 0) are built on, is the model's.
+    [names_spec_ok]: a thread whose name no other thread of the scenario uses acquired the
+    lock within [prompt] of calling Lock (names are ASCII here). *)
+Record nthread := NThread { nname : str; nfile : str; nstart : Z; nout : Z; nret : Z }.
+Record ncase := NCase { nroot : str; nthreads : list nthread; nprompt : Z }.
+Definition get_nthread : dec nthread :=
+  n <- get_str ;; f <- get_str ;; st <- get_z ;; o <- get_z ;; r <- get_z ;; ret (NThread n f st o r).
+Definition get_ncase : dec ncase :=
+  r <- get_str ;; ts <- get_list get_nthread ;; p <- get_z ;; ret (NCase r ts p).
+
+Definition model_lock_file (root name : str) : str :=
+  lock_filename (tbl_lower []) (tbl_space []) root name.
+Definition names_model_agrees (c : ncase) : bool :=
+  forallb (fun t => str_eqb (model_lock_file (nroot c) (nname t)) (nfile t)) (nthreads c).
+Definition count_name (c : ncase) (n : str) : nat :=
+  length (filter (fun t => str_eqb (nname t) n) (nthreads c)).
+Definition names_spec_ok (c : ncase) : bool :=
+  forallb (fun t => negb (count_name c (nname t) =? 1)%nat ||
+                    ((nout t =? 0) && (nret t - nstart t <=? nprompt c))) (nthreads c).
+
 Definition check_line (l : list Z) : Z :=
-  match decode get_case l with
-  | Some c => code (model_agrees c) (spec_ok c)
-  | None => code_decode_error
+  match l with
+  | 0 :: r =>
+      match decode get_case r with
+      | Some c => code (model_agrees c) (spec_ok c)
+      | None => code_decode_error
+      end
+  | 1 :: r =>
+      match decode get_ncase r with
+      | Some c => code (names_model_agrees c) (names_spec_ok c)
+      | None => code_decode_error
+      end
+  | _ => code_decode_error
   end.
 
 (** diagnostics: the model's outcome log (tid, outcome, time in ms) for the unshifted script,
-    then the three monitor verdicts *)
+    then the three monitor verdicts; for a names case, per thread: does the model's lock file
+    agree, is the thread's name unique, was it prompt *)
 Definition explain_line (l : list Z) : list Z :=
-  match decode get_case l with
-  | Some c =>
-      flat_map (fun x => [Z.of_nat (fst (fst x)); snd (fst x); snd x / 1000000]) (model_outlog c 0) ++
-      [-7; (if mutex_ok c then 1 else 0); (if recovers_ok c then 1 else 0); (if cancel_ok c then 1 else 0)]
-  | None => []
+  match l with
+  | 0 :: r =>
+      match decode get_case r with
+      | Some c =>
+          flat_map (fun x => [Z.of_nat (fst (fst x)); snd (fst x); snd x / 1000000]) (model_outlog c 0) ++
+          [-7; (if mutex_ok c then 1 else 0); (if recovers_ok c then 1 else 0); (if cancel_ok c then 1 else 0)]
+      | None => []
+      end
+  | 1 :: r =>
+      match decode get_ncase r with
+      | Some c =>
+          flat_map (fun t => [(if str_eqb (model_lock_file (nroot c) (nname t)) (nfile t) then 1 else 0);
+                              Z.of_nat (count_name c (nname t));
+                              (if (nout t =? 0) && (nret t - nstart t <=? nprompt c) then 1 else 0)]) (nthreads c)
+      | None => []
+      end
+  | _ => []
   end.
